@@ -68,6 +68,9 @@ class Prog:
     def local(self, ns, es): return self.add("local", ns=list(ns), es=list(es))
     def localfunction(self, n, f): return self.add("localfunction", n=n, f=f)
     def assign(self, ts, es): return self.add("assign", ts=list(ts), es=list(es))
+    def funcstat(self, t, f, method=False):
+        """function a.b.c(...) end / function a.b:c(...) end: an assignment written with the statement sugar"""
+        return self.add("assign", ts=[t], es=[f], sugar="method" if method else "plain")
     def callstat(self, e): return self.add("callstat", e=e)
     def do(self, b): return self.add("do", b=b)
     def while_(self, c, b): return self.add("while", c=c, b=b)
@@ -129,6 +132,29 @@ class Renderer:
                 self.lines.append("   multi-line comment ]]")
             else:
                 self.lines.append(c)
+
+    def params(self, f, skip=0):
+        ps = f["ps"][skip:] + (["..."] if f["va"] else [])
+        for i, x in enumerate(ps):
+            if i:
+                self.w(", ")
+                self.brk()
+            self.w(x)
+        if ps:
+            self.brk()      # the ')' may sit on a line of its own
+
+    def sugar_path(self, nd):
+        """names a.b.c of the single target when the assignment is marked as function-statement sugar"""
+        if not nd.get("sugar") or len(nd["ts"]) != 1 or len(nd["es"]) != 1 or self.n[nd["es"][0]]["k"] != "func":
+            return None
+        path, t = [], self.n[nd["ts"][0]]
+        while t["k"] == "index" and t.get("dot"):
+            path.append(bytes(self.n[t["i"]]["s"]).decode())
+            t = self.n[t["o"]]
+        if t["k"] != "id":
+            return None
+        path.append(t["n"])
+        return path[::-1]
 
     def brk(self):
         """optional line break inside an expression (spread layout)"""
@@ -227,7 +253,9 @@ class Renderer:
             self.exprlist(nd["as"], indent)
             self.w(")")
         elif k == "func":
-            self.w("function(" + ", ".join(nd["ps"] + (["..."] if nd["va"] else [])) + ")")
+            self.w("function(")
+            self.params(nd)
+            self.w(")")
             self.blockbody(nd["b"], indent + 1)
             self.nl(indent)
             self.w("end")
@@ -303,7 +331,22 @@ class Renderer:
                 self.exprlist(nd["es"], indent)
         elif k == "localfunction":
             f = self.n[nd["f"]]
-            self.w("local function %s(%s)" % (nd["n"], ", ".join(f["ps"] + (["..."] if f["va"] else []))))
+            self.w("local function %s(" % nd["n"])
+            self.params(f)
+            self.w(")")
+            hdr_end = self.line
+            self.blockbody(f["b"], indent + 1)
+            self.nl(indent)
+            self.w("end")
+            f["ln"] = [start, self.line]
+        elif k == "assign" and self.sugar_path(nd):
+            # function statement sugar: function a.b.c(...) / function a.b:c(...)  ==  a.b.c = function([self,] ...)
+            path = self.sugar_path(nd)
+            f = self.n[nd["es"][0]]
+            meth = nd.get("sugar") == "method" and len(path) > 1 and f["ps"][:1] == ["self"]
+            self.w("function " + ".".join(path[:-1]) + ((":" if meth else ".") if len(path) > 1 else "") + path[-1] + "(")
+            self.params(f, skip=1 if meth else 0)
+            self.w(")")
             hdr_end = self.line
             self.blockbody(f["b"], indent + 1)
             self.nl(indent)
